@@ -18,6 +18,8 @@ import (
 	"testing/synctest"
 	"time"
 
+	"github.com/daeuniverse/dae/common/consts"
+	"github.com/daeuniverse/dae/control"
 	"pgregory.net/rapid"
 )
 
@@ -72,7 +74,7 @@ func TestC20_Drain(t *testing.T) {
 		sessionEnd := rapid.SampledFrom([]time.Duration{c20Never, c20Never, time.Second, 4 * time.Second, 9 * time.Second, 12 * time.Second, 30 * time.Second}).Draw(rt, "sessionEnd")
 		cancelAt := rapid.SampledFrom([]time.Duration{c20Never, c20Never, c20Never, 2 * time.Second, 6 * time.Second, 11 * time.Second}).Draw(rt, "cancelAt")
 		direct := rapid.IntRange(0, 3).Draw(rt, "direct") == 0
-		abort := rapid.IntRange(0, 5).Draw(rt, "abort") == 0
+		abort := rapid.IntRange(0, 2).Draw(rt, "abort") == 0
 		overlap := rapid.IntRange(0, 5).Draw(rt, "overlap") > 0
 		// how much of the switch budget the reload itself has used
 		used := rapid.SampledFrom([]time.Duration{c20Never /* no timestamp */, 0, 3 * time.Second, reloadTotalSwitchBudget - time.Millisecond,
@@ -246,4 +248,203 @@ func c20DurName(d time.Duration) string {
 		return "never"
 	}
 	return "at " + d.String()
+}
+
+// ---- unit "retirement" -------------------------------------------------------
+//
+// startControlPlaneRetirement + finishReloadSuccess called directly on a real
+// reloadManager: abort / overlap flags, a live session or none, part of the switch
+// budget used, and an old generation whose teardown (its cancel func, called by the
+// real retirement goroutine before Close) takes a rapid-chosen virtual time.
+// Requests are queued at rapid-chosen instants. Oracle: until the retirement is
+// over (connections retired + teardown) pending stays set, the muting stays on and
+// every request is refused; from that instant on a request is accepted.
+
+const c20UnitRetirement = "C20.retirement"
+
+func TestC20_Retirement(t *testing.T) {
+	c20InstallSeams(t)
+	instants := []time.Duration{0, time.Millisecond, time.Second, 2 * time.Second, 5 * time.Second, 7 * time.Second,
+		reloadTotalSwitchBudget - time.Nanosecond, reloadTotalSwitchBudget, 12 * time.Second, 17 * time.Second, 61 * time.Second, 75 * time.Second}
+	rapid.Check(t, func(rt *rapid.T) {
+		abort := rapid.Bool().Draw(rt, "abort")
+		overlap := rapid.IntRange(0, 3).Draw(rt, "overlap") > 0
+		live := rapid.Bool().Draw(rt, "live")
+		sessionEnd := rapid.SampledFrom([]time.Duration{c20Never, c20Never, time.Second, 4 * time.Second, 12 * time.Second}).Draw(rt, "sessionEnd")
+		used := rapid.SampledFrom([]time.Duration{c20Never, 0, 0, 3 * time.Second, 11 * time.Second}).Draw(rt, "used")
+		teardown := rapid.SampledFrom([]time.Duration{0, time.Millisecond, 2 * time.Second, 7 * time.Second, time.Minute}).Draw(rt, "teardown")
+		withSuccessor := rapid.Bool().Draw(rt, "successor")
+		nProbes := rapid.IntRange(1, 4).Draw(rt, "probes")
+		probeSet := map[time.Duration]bool{}
+		for i := 0; i < nProbes; i++ {
+			probeSet[rapid.SampledFrom(instants).Draw(rt, "probeAt")] = true
+		}
+		var probes []time.Duration
+		for _, d := range instants {
+			if probeSet[d] {
+				probes = append(probes, d)
+			}
+		}
+
+		// model: when is the old generation gone
+		remaining := reloadTotalSwitchBudget
+		if used != c20Never {
+			remaining -= used
+		}
+		if remaining < 0 {
+			remaining = 0
+		}
+		drainFor := time.Duration(0)
+		if !abort && overlap && live {
+			drainFor = remaining
+			if sessionEnd != c20Never && sessionEnd < drainFor {
+				drainFor = sessionEnd
+			}
+		}
+		retiredAt := drainFor + teardown
+
+		var failure string
+		var classes []string
+		refusedDuring := false
+		c20InBubble(t, func() {
+			if err := c20ResetSuppression(); err != nil {
+				failure = "before the case: " + err.Error()
+				return
+			}
+			cell := &c20Cell{code: consts.ReloadDone}
+			c20SetSeams(cell)
+			defer c20SetSeams(nil)
+			m := newReloadManager(make(chan reloadRequest, 1), make(chan struct{}, 1), nil)
+			stop := make(chan struct{})
+			var helpers sync.WaitGroup
+			defer func() { close(stop); helpers.Wait(); time.Sleep(2 * time.Minute); synctest.Wait() }()
+
+			if !m.queueReloadRequest(c20Log, reloadRequest{}) {
+				failure = "harness: first request refused"
+				return
+			}
+			<-m.reloadReqs
+			m.reloadActive.Store(true)
+			cell.put(consts.ReloadProcessing, "")
+			base := time.Now()
+			var startedAt time.Time
+			if used != c20Never {
+				startedAt = base.Add(-used)
+			}
+			m.setPendingReloadMetadata(startedAt, 0)
+			n := 0
+			if live {
+				n = 1
+			}
+			oldPlane, release := control.VerifC20DrainPlane(n)
+			if live && sessionEnd != c20Never {
+				helpers.Add(1)
+				go func() {
+					defer helpers.Done()
+					tm := time.NewTimer(sessionEnd)
+					defer tm.Stop()
+					select {
+					case <-tm.C:
+					case <-stop:
+					}
+					release[0]()
+				}()
+			} else if live {
+				defer release[0]()
+			}
+			var successor *control.ControlPlane
+			if withSuccessor {
+				successor, _ = control.VerifC20DrainPlane(0)
+			}
+			tornDown := false
+			oldCancel := func() { time.Sleep(teardown); tornDown = true }
+			m.beginHandoff()
+			m.startControlPlaneRetirement(c20Log, oldPlane, successor, oldCancel, abort, overlap)
+			// main loop: new generation is ready
+			m.reloading.Store(false)
+			cell.put(consts.ReloadDone, "OK")
+			m.finishReloadSuccess()
+
+			check := func(at time.Duration) bool {
+				synctest.Wait()
+				gone := at >= retiredAt
+				if tornDown != gone {
+					failure = fmt.Sprintf("at +%v the old generation's teardown finished=%v, model says %v (retired at +%v)", at, tornDown, gone, retiredAt)
+					return false
+				}
+				pending := m.reloadPending.Load()
+				_, _, b, e, _ := cell.get()
+				muted := c20ProbeSuppressed()
+				if !gone && (!pending || b-e != 1 || !muted) {
+					failure = fmt.Sprintf("at +%v the old generation is still being retired (over at +%v) but pending=%v, muting depth=%d, muted=%v", at, retiredAt, pending, b-e, muted)
+					return false
+				}
+				if gone && (pending || b-e != 0) {
+					failure = fmt.Sprintf("at +%v the old generation has retired (at +%v) but pending=%v, muting depth=%d", at, retiredAt, pending, b-e)
+					return false
+				}
+				got := m.queueReloadRequest(c20Log, reloadRequest{})
+				if got != gone {
+					failure = fmt.Sprintf("a request at +%v was accepted=%v; the old generation retires at +%v (abort=%v overlap=%v live session=%v teardown %v)", at, got, retiredAt, abort, overlap, live, teardown)
+					return false
+				}
+				if !got {
+					refusedDuring = true
+					code, msg, _, _, _ := cell.get()
+					if code != consts.ReloadBusy || msg == "" {
+						failure = fmt.Sprintf("refused request at +%v not reported busy: %s %q", at, c20CodeName(code), msg)
+						return false
+					}
+				}
+				return !got
+			}
+			accepted := false
+			for _, p := range probes {
+				time.Sleep(p - time.Since(base))
+				if !check(p) {
+					accepted = failure == ""
+					break
+				}
+			}
+			if failure == "" && !accepted {
+				at := retiredAt
+				if since := time.Since(base); since > at {
+					at = since
+				}
+				time.Sleep(at - time.Since(base))
+				if check(at) {
+					failure = "harness: final request not accepted and no failure recorded"
+				}
+				accepted = failure == ""
+			}
+			if accepted { // settle the second reload
+				<-m.reloadReqs
+				m.finishReloadFailure()
+			}
+			if !tornDown { // let the teardown end before leaving the bubble
+				time.Sleep(retiredAt + time.Second)
+			}
+		})
+		if failure != "" {
+			rt.Fatalf("C20 retirement: %s", failure)
+		}
+		if abort {
+			classes = append(classes, "abort")
+		}
+		if drainFor > 0 {
+			classes = append(classes, "drain_wait")
+		}
+		if teardown > 0 {
+			classes = append(classes, "slow_teardown")
+		}
+		key := ""
+		if refusedDuring {
+			classes = append(classes, "refused_during_retirement")
+			if abort {
+				classes = append(classes, "refused_during_abort_retirement")
+			}
+			key = fmt.Sprintf("%v %v %v %v %v %v %v %v", abort, overlap, live, sessionEnd, used, teardown, withSuccessor, probes)
+		}
+		vkCase(c20UnitRetirement, key, func() any { return key }, classes...)
+	})
 }
